@@ -37,6 +37,7 @@ type Plan struct {
 	K       int               `json:"k,omitempty"`
 	CT      string            `json:"ct,omitempty"`
 	Body    string            `json:"body,omitempty"` // explicit body instead of tokens
+	Chunks  [][]byte          `json:"-"`              // explicit chunk list instead of tokens (each written separately)
 	Raw     string            `json:"raw,omitempty"`
 	Hdr     map[string]string `json:"hdr,omitempty"`
 	GapMs   int               `json:"gap_ms,omitempty"` // pause between tokens
@@ -409,7 +410,11 @@ func (b *Backend) execute(c net.Conn, r *Recv, p Plan) bool {
 		ct = "application/json"
 	}
 	var toks []string
-	if p.Body != "" {
+	if p.Chunks != nil {
+		for _, c := range p.Chunks {
+			toks = append(toks, string(c))
+		}
+	} else if p.Body != "" {
 		toks = []string{p.Body}
 	} else {
 		for i := 0; i < p.N; i++ {
